@@ -30,6 +30,8 @@ PROGS = collections.OrderedDict([
     ("loop", H + "\nfor int i in 0:2\n    G({a}, i) | i\n"),
     ("plain", H + "\nG | 0\nH(1.5, k=[1]) | 1\nK() | [0, 1]\n"),
     ("regref-negpow", H + "\nMeasureX | 0\nG(-(q0**2)*q1, {a}) | 2\nH(p=-(q1**3)) | 3\n"),
+    # transforms of two and three registers (whatever order each lists its registers in, it stays paired with its function)
+    ("regref-multi", H + "\nMeasureX | 0\nG(q1 - 3*q0, {a}) | 2\nH(k=q3*q0 - q1/2) | 4\nK(q10 + q2*q0, 0.5) | 5\nG(q2 - q1**2, k=q7/q5) | 6\n"),
     ("pstring", H + "\nG(\"p1\", {a}, tag=\"p20\", l=[\"p0\"]) | 0\n"),
     ("affine", H + "\nG(2*{a}-1, 1-{b}/3) | 0\nH(k=0.5*{a}*{b}-{a}+2) | 1\n"),
     ("unsimplified", H + "\nG(({a}**2 - 1)/({a} - 1), {a}*({a}+2) - {a}**2) | 0\nH(k=({a}+{b})**2 - {a}**2, l=[({b}**2-4)/({b}+2)]) | 1\n"),
